@@ -148,6 +148,36 @@ class VEnc(object):
                        self.onum(C.get(a)), self.onum(C.get(b)), self.onum(C.get('aspect_ratio')),
                        self.onum(C.get('znear')), self.onum(C.get('zfar'))])
 
+    def text(self, t):
+        return 'Vnone' if t is None else self.l([self.tok(x) for x in t.split()])
+
+    def image(self, i):
+        return self.l([self.n(i['uid']), self.aval(i['id']), self.text(i['path'])])
+
+    def pval(self, v):
+        if v is None:
+            return 'Vnone'
+        if 'num' in v:
+            return self.l([self.n(0), self.l([self.n(self.cls(k)) for k in v['num']])])
+        if 'map' in v:
+            return self.l([self.n(1), self.aval(v['map']['sampler_id']), self.aval(v['map']['texcoord'])])
+        return self.l([self.n(2)])
+
+    def effect(self, e):
+        params = []
+        for p in e['params']:
+            if p['kind'] == 'Surface':
+                params.append(self.l([self.n(0), self.n(p['uid']), self.aval(p['id']), self.text(p['format']),
+                                      self.n(p['image']['uid'] if p.get('image') else 0)]))
+            elif p['kind'] == 'Sampler2D':
+                params.append(self.l([self.n(1), self.n(p['uid']), self.aval(p['id']), self.text(p['minfilter']),
+                                      self.text(p['magfilter']), self.n(p['surface'])]))
+            else:
+                params.append(self.l([self.n(9)]))
+        return self.l([self.n(e['uid']), self.aval(e['id']), self.n(self.atom(e['shadingtype'])),
+                       self.n(1 if e['double_sided'] else 0), self.n(self.atom(e['opaque_mode'])), self.l(params),
+                       self.l([self.pval(e['props'][k]) for k in expect.ALL_PROPS]), self.pval(e['bumpmap'])])
+
     def matnode(self, m):
         return self.l([self.n(m['uid']), self.aval(m['symbol']), self.n(m['target']['uid']),
                        self.l([self.l([self.aval(x) for x in b]) for b in m['inputs']])])
@@ -180,7 +210,8 @@ class VEnc(object):
 
     def doc(self, s):
         return self.l([
-            self.l([self.l([self.n(e['uid']), self.aval(e['id'])]) for e in s['effects']]),
+            self.l([self.image(i) for i in s['images']]),
+            self.l([self.effect(e) for e in s['effects']]),
             self.l([self.l([self.n(m['uid']), self.aval(m['id']), self.aval(m['name']), self.n(m['effect']['uid'])])
                     for m in s['materials']]),
             self.l([self.l([self.anim_tree(a), self.sdict(a['sources'])]) for a in s['animations']]),
@@ -193,9 +224,18 @@ class VEnc(object):
             'Vnone' if s['scene'] is None else self.n(s['scene']['uid'])])
 
 
+def new_enc():
+    """an encoder whose first three dynamic atoms are the element names float2, float3, float4 (Model/LoadDoc.v
+    a_float2.. rely on this: the names are not in the shared vocabulary)"""
+    enc = xml2coq.Enc()
+    for name in ('float2', 'float3', 'float4'):
+        enc.I.atom(name)
+    return enc
+
+
 def coq_case(xml_bytes, snap):
     """-> (term, interning table) ; the term has type C05.case"""
-    term, enc = xml2coq.encode_bytes(xml_bytes)
+    term, enc = xml2coq.encode_bytes(xml_bytes, new_enc())
     ve = VEnc(enc)
     view = ve.doc(snap)
     numtab = ve.numtab()       # after the view: every token of the document is in enc.nums already
